@@ -473,6 +473,18 @@ func (d *cnDriver) step() error {
 				if len(names) > 1 && d.rng.Intn(3) == 0 {
 					rts = strings.Join(names, ",")
 				}
+			case n.computeOnly(i) && rts == "" && len(d.rtOwner) == 0:
+				continue // a node without the validator role has nothing to register for before a runtime exists
+			case n.computeOnly(i) && rts == "":
+				var names []string
+				for r := range d.rtOwner {
+					names = append(names, r)
+				}
+				sort.Strings(names)
+				rts = strings.Join(names, ",")
+				if len(names) > 1 && d.rng.Intn(3) == 0 {
+					rts = names[d.rng.Intn(len(names))]
+				}
 			case x == 3 && rts != "" && i != 1 && d.nodeActive(v.name, epochNow):
 				rts, validity = "", "dropruntime" // an active node may not drop a runtime: must fail (node 1 always renews: precondition)
 			}
@@ -585,7 +597,7 @@ func (d *cnDriver) step() error {
 			}
 		}
 		sp := &cnTxSpec{Kind: "regruntime", Signer: e, To: r, Deps: strings.Join(deps, ";"), Gov: []string{"entity", "entity", "runtime"}[d.rng.Intn(3)],
-			Shape: fmt.Sprintf("g%db%dm%dp%dv%ds%d", 1+d.rng.Intn(d.maxGroup), d.rng.Intn(3), d.rng.Intn(3), d.rng.Intn(2), btoi(d.rng.Intn(4) == 0), d.rng.Intn(2)), Nonce: uint64(d.acctField(e, "n")) + nonceBump[e], Gas: 5000, Validity: validity}
+			Shape: fmt.Sprintf("g%db%dm%dp%dv%ds%d", 1+d.rng.Intn(d.maxGroup), d.rng.Intn(3), d.rng.Intn(3), d.rng.Intn(2), btoi(d.rng.Intn(4) < 1+2*btoi(n.cfg.ComputeOnly > 0)), d.rng.Intn(2)), Nonce: uint64(d.acctField(e, "n")) + nonceBump[e], Gas: 5000, Validity: validity}
 		if d.rng.Intn(2) == 0 {
 			// per-runtime slashing for incorrect results / equivocation with a share of the slashed funds for the runtime's
 			// account: shares of 0..100 % are valid, anything above must be refused by the descriptor checks
@@ -849,7 +861,7 @@ func (d *cnDriver) step() error {
 	if d.rng.Intn(5) == 0 {
 		// entities try to unfreeze their nodes (fails unless frozen and the freeze period is over)
 		i := d.rng.Intn(len(n.vals))
-		ename := fmt.Sprintf("E%d", min(i, n.cfg.Validators-1)*btoi(i < n.cfg.Validators))
+		ename := fmt.Sprintf("E%d", n.entIndex(i))
 		sp := cnTxSpec{Kind: "unfreeze", Signer: ename, To: fmt.Sprintf("N%d", i), Nonce: uint64(d.acctField(ename, "n")) + nonceBump[ename], Gas: 2000, Validity: "ok"}
 		if raw, err := n.buildTx(&sp, d.rng); err == nil {
 			nonceBump[ename]++
@@ -1412,6 +1424,8 @@ func consRun(args []string) int {
 	vrfThr := fs.Uint64("vrfthreshold", 2, "VRF backend: proofs needed for a high-quality alpha")
 	tied := fs.Bool("tiedstake", false, "all validator entities start with the same escrow (ties at the validator-count cut-off)")
 	extraNodes := fs.Int("extranodes", 0, "additional validator nodes run by entity 0 (per-entity limit stays 1)")
+	feature := fs.String("feature261", "auto", "consensus feature version 26.1: on | off | auto (on for even seeds)")
+	computeOnly := fs.Int("computeonly", 0, "nodes without the validator role (entities in turn), registered once a runtime exists")
 	sanity := fs.Bool("sanity", false, "register the in-tree supplementary sanity checker in the observer (it halts the chain on a failure; TLC is the oracle, so it is off by default)")
 	concurrent := fs.Bool("concurrent", true, "run CheckTx / EstimateGas / state queries in goroutines while validator replicas execute blocks")
 	vaults := fs.Bool("vault", false, "generate vault transactions (creation, actions, deposits, withdrawals through the account hook)")
@@ -1437,7 +1451,8 @@ func consRun(args []string) int {
 	}
 	defer w.Close()
 	cfg := cnCfg{Validators: *vals, Users: *users, EpochInterval: *interval, Seed: *seed, ChainID: fmt.Sprintf("verif-chain-%d", *seed),
-		MaxValidators: *maxVals, MaxPerEntity: *maxPerEntity, ExtraNodes: *extraNodes, TiedStake: *tied, VRF: *vrfMode, VRFThreshold: *vrfThr, MinTransact: *minTransact, TinyStake: *tiny, Debond: *debond}
+		MaxValidators: *maxVals, MaxPerEntity: *maxPerEntity, ExtraNodes: *extraNodes, ComputeOnly: *computeOnly, TiedStake: *tied, VRF: *vrfMode, VRFThreshold: *vrfThr, MinTransact: *minTransact, TinyStake: *tiny, Debond: *debond,
+		Feature261: *feature == "on" || (*feature == "auto" && *seed%2 == 0)}
 	net, err := newNet(cfg, *scratch)
 	if err != nil {
 		fmt.Fprintln(os.Stderr, "net:", err)
